@@ -438,6 +438,7 @@ type Contract struct {
 	Results    []string
 	Requires   []*Clause
 	Ensures    []*Clause
+	EnsuresRecovered []*Clause // must hold when the function returns through its recover block
 	Assumes    []*Clause // assumed at entry when verifying the body; not an obligation at call sites
 	PanicsOnlyIf []*Clause // condition that must hold at every explicit panic statement
 	Decreases  *Clause
@@ -467,7 +468,7 @@ type ContractSet struct {
 	Files  []string
 }
 
-var clauseHead = regexp.MustCompile(`^(func|external|lemma|requires|ensures|assume|panics_only_if|invariant|decreases|assigns|loop|trusted|may_panic|fresh|dead_returns|var|hyp|concl|fuel|opaque)\b(\[[^\]]*\])?\s*(.*)$`)
+var clauseHead = regexp.MustCompile(`^(func|external|lemma|requires|ensures_recovered|ensures|assume|panics_only_if|invariant|decreases|assigns|loop|trusted|may_panic|fresh|dead_returns|var|hyp|concl|fuel|opaque)\b(\[[^\]]*\])?\s*(.*)$`)
 
 func loadContracts(files []string) (*ContractSet, error) {
 	cs := &ContractSet{ByKey: map[string]*Contract{}}
@@ -662,6 +663,15 @@ func (cs *ContractSet) parseFile(file, src string) error {
 			}
 			curLoop = &LoopContract{Ordinal: n}
 			cur.Loops[n] = curLoop
+		case "ensures_recovered":
+			if cur == nil {
+				return fmt.Errorf("%s:%d: ensures_recovered outside func", file, r.line)
+			}
+			c, err := mk(r.head)
+			if err != nil {
+				return err
+			}
+			cur.EnsuresRecovered = append(cur.EnsuresRecovered, c)
 		case "assume", "panics_only_if":
 			if cur == nil {
 				return fmt.Errorf("%s:%d: %s outside func", file, r.line, r.head)
